@@ -3,8 +3,15 @@
 // Part "enc" enumerates integer values (thorough: all 2^32 VarInt values; VarLong over a 7-bit
 // group alphabet plus boundary neighbours, 2^64 cannot be enumerated) and judges, against the
 // reference LEB128 of ref/refwire: WriteToBytes bytes, Len() == WriteToBytes count == WriteTo
-// count, WriteTo bytes, and decoding of those bytes followed by a sentinel tail from a
-// ByteReader source and from a plain io.Reader (value, n, bytes consumed).
+// count, WriteTo bytes, and decoding of those bytes followed by a sentinel tail (value, n, bytes
+// consumed). The environment of each call is enumerated from stated menus (devices.go):
+//   - WriteToBytes buffers: a pre-filled 16-byte buffer (nothing beyond the returned count may
+//     change) and a window of exactly the encoding's length inside a larger array (no panic, the
+//     neighbouring bytes stay untouched);
+//   - WriteTo writer kinds: Write-only sink, *bytes.Buffer, *bufio.Writer (io.ByteWriter paths);
+//   - ReadFrom source kinds: *bytes.Reader, Read-only reader, *bytes.Buffer, *bufio.Reader,
+//     Read-only reader that interleaves (0, nil) answers, Read-only reader that reports io.EOF
+//     together with the last byte.
 //
 // Part "dec" enumerates byte streams: every byte string of length <= 3 over all 256 byte values
 // and every string of length <= L over {00,01,7f,80,81,ff}, each alone and followed by a tail of
@@ -25,7 +32,6 @@ import (
 	"encoding/hex"
 	"encoding/json"
 	"fmt"
-	"io"
 	"math"
 	"os"
 	"strconv"
@@ -42,17 +48,10 @@ type Case struct {
 	Type  string `json:"type"`            // VarInt | VarLong
 	Value string `json:"value,omitempty"` // enc: decimal value
 	Hex   string `json:"hex,omitempty"`   // dec: the whole stream
-	Src   string `json:"src,omitempty"`   // dec: bytereader | plain
+	Src   string `json:"src,omitempty"`   // dec: source kind (srcNames)
 }
 
 var rep *engine.Report
-
-const (
-	srcByteReader = 0 // *bytes.Reader: implements io.ByteReader (what Packet.Scan hands to fields)
-	srcPlain      = 1 // engine.PlainReader: Read only (what a net.Conn looks like)
-)
-
-var srcNames = [...]string{"bytereader", "plain"}
 
 // tail that follows an encoding in part enc: starts with a continuation-type byte so that a
 // decoder reading one byte too many also computes a different value.
@@ -66,45 +65,15 @@ type fail struct {
 // state is per-worker scratch, so the hot loops do not allocate.
 type state struct {
 	buf    [16]byte
+	win    [24]byte
 	ref    [16]byte
 	stream [32]byte
-	sink   sinkWriter
-	br     bytes.Reader
-	pr     engine.PlainReader
+	wr     writers
+	src    sources
 	fails  []fail
 	unspec int64
 	evals  int64
 	trans  int64
-}
-
-// eofReader hands out everything asked for and reports io.EOF together with the final bytes.
-type eofReader struct {
-	data []byte
-	pos  int
-}
-
-func (e *eofReader) Read(p []byte) (int, error) {
-	if len(p) == 0 {
-		return 0, nil
-	}
-	n := copy(p, e.data[e.pos:])
-	e.pos += n
-	if e.pos >= len(e.data) {
-		return n, io.EOF
-	}
-	return n, nil
-}
-
-type sinkWriter struct {
-	b     [16]byte
-	n     int
-	calls int
-}
-
-func (s *sinkWriter) Write(p []byte) (int, error) {
-	s.calls++
-	s.n += copy(s.b[s.n:], p)
-	return len(p), nil
 }
 
 func (st *state) failf(class, format string, a ...any) {
@@ -114,14 +83,7 @@ func (st *state) failf(class, format string, a ...any) {
 // decodeFrom runs the real decoder on stream from the chosen source kind and returns
 // (value as uint64 bit pattern, n, err, bytes consumed from the source).
 func (st *state) decodeFrom(long bool, stream []byte, src int) (val uint64, n int64, err error, consumed int) {
-	var r io.Reader
-	if src == srcByteReader {
-		st.br.Reset(stream)
-		r = &st.br
-	} else {
-		st.pr.Data, st.pr.Pos = stream, 0
-		r = &st.pr
-	}
+	r := st.src.open(src, stream)
 	if long {
 		out := pk.VarLong(0x5aa55aa55aa55aa5) // prior content of the destination
 		n, err = out.ReadFrom(r)
@@ -131,25 +93,21 @@ func (st *state) decodeFrom(long bool, stream []byte, src int) (val uint64, n in
 		n, err = out.ReadFrom(r)
 		val = uint64(uint32(out))
 	}
-	if src == srcByteReader {
-		consumed = len(stream) - st.br.Len()
-	} else {
-		consumed = st.pr.Pos
-	}
+	consumed = st.src.consumed(src, stream)
 	st.trans++
 	return
 }
 
-var (
-	rtPrefix = [2][2]string{
-		{"roundtrip/VarInt.ReadFrom/bytereader/", "roundtrip/VarInt.ReadFrom/plain/"},
-		{"roundtrip/VarLong.ReadFrom/bytereader/", "roundtrip/VarLong.ReadFrom/plain/"},
+var rtPrefix, decPrefix [2][nSrc]string
+
+func init() {
+	for l, tn := range []string{"VarInt", "VarLong"} {
+		for src := 0; src < nSrc; src++ {
+			rtPrefix[l][src] = "roundtrip/" + tn + ".ReadFrom/" + srcNames[src] + "/"
+			decPrefix[l][src] = "dec/" + tn + ".ReadFrom/" + srcNames[src] + "/"
+		}
 	}
-	decPrefix = [2][2]string{
-		{"dec/VarInt.ReadFrom/bytereader/", "dec/VarInt.ReadFrom/plain/"},
-		{"dec/VarLong.ReadFrom/bytereader/", "dec/VarLong.ReadFrom/plain/"},
-	}
-)
+}
 
 func b2i(b bool) int {
 	if b {
@@ -175,93 +133,128 @@ func (st *state) checkEnc(long bool, v int64) {
 	} else {
 		ref = refwire.AppendVarInt(st.ref[:0], int32(v))
 	}
+	xl, xi := pk.VarLong(v), pk.VarInt(int32(v))
+
+	// --- WriteToBytes into a roomy buffer (16 bytes, pre-filled) and Len()
 	for i := range st.buf {
 		st.buf[i] = 0xaa
 	}
-	st.sink.n, st.sink.calls = 0, 0
 	var nb, ln int
-	var wn int64
-	var werr error
 	if long {
-		x := pk.VarLong(v)
-		nb = x.WriteToBytes(st.buf[:])
-		ln = x.Len()
-		wn, werr = x.WriteTo(&st.sink)
+		nb = xl.WriteToBytes(st.buf[:])
+		ln = xl.Len()
 	} else {
-		x := pk.VarInt(int32(v))
-		nb = x.WriteToBytes(st.buf[:])
-		ln = x.Len()
-		wn, werr = x.WriteTo(&st.sink)
+		nb = xi.WriteToBytes(st.buf[:])
+		ln = xi.Len()
 	}
-	st.trans += 3
+	st.trans += 2
 	if nb < 0 || nb > len(st.buf) || !bytes.Equal(st.buf[:nb], ref) {
 		c := nb
 		if c < 0 || c > len(st.buf) {
 			c = len(st.buf)
 		}
 		st.failf("enc/"+tn+".WriteToBytes/bytes-differ-from-minimal-LEB128", "%s(%d).WriteToBytes wrote %x (count %d); reference minimal LEB128 is %x", tn, v, st.buf[:c], nb, ref)
+	} else {
+		// the bytes emitted into the caller's buffer are exactly the nb reported ones
+		for i := nb; i < len(st.buf); i++ {
+			if st.buf[i] != 0xaa {
+				st.failf("enc/"+tn+".WriteToBytes/stored-bytes-beyond-the-returned-count", "%s(%d).WriteToBytes returned %d (Len() = %d) but changed byte %d of the caller's 16-byte buffer: %x (was filled with aa)", tn, v, nb, ln, i, st.buf[:])
+				break
+			}
+		}
 	}
 	if ln != nb {
 		st.failf("enc/"+tn+".Len/differs-from-WriteToBytes-count", "%s(%d).Len() = %d but WriteToBytes emitted %d bytes", tn, v, ln, nb)
 	}
-	if werr != nil {
-		st.failf("enc/"+tn+".WriteTo/error-on-accepting-writer", "%s(%d).WriteTo returned %v", tn, v, werr)
-	} else {
-		if wn != int64(st.sink.n) {
-			st.failf("enc/"+tn+".WriteTo/count-differs-from-bytes-written", "%s(%d).WriteTo returned n=%d but the writer received %d bytes", tn, v, wn, st.sink.n)
+
+	// --- WriteToBytes into a window of exactly the encoding's length inside a larger array (how
+	// packWithCompression patches the packet length in front of a finished body): a panic here is
+	// reported by guardedEnc under the WriteToBytes frame; the neighbours must stay untouched.
+	{
+		const off = 3
+		for i := range st.win {
+			st.win[i] = 0x55
 		}
-		if int64(ln) != wn {
-			st.failf("enc/"+tn+".Len/differs-from-WriteTo-count", "%s(%d).Len() = %d but WriteTo reported %d bytes", tn, v, ln, wn)
+		w := st.win[off : off+len(ref)]
+		var nw int
+		if long {
+			nw = xl.WriteToBytes(w)
+		} else {
+			nw = xi.WriteToBytes(w)
 		}
-		if !bytes.Equal(st.sink.b[:st.sink.n], ref) {
-			st.failf("enc/"+tn+".WriteTo/bytes-differ-from-minimal-LEB128", "%s(%d).WriteTo wrote %x; reference minimal LEB128 is %x", tn, v, st.sink.b[:st.sink.n], ref)
+		st.trans++
+		if nw != len(ref) || !bytes.Equal(w, ref) {
+			st.failf("enc/"+tn+".WriteToBytes/exact-length-buffer/bytes-differ-from-minimal-LEB128", "%s(%d).WriteToBytes into a buffer of exactly %d bytes returned %d and left %x; reference minimal LEB128 is %x", tn, v, len(ref), nw, w, ref)
+		}
+		for i := range st.win {
+			if (i < off || i >= off+len(ref)) && st.win[i] != 0x55 {
+				st.failf("enc/"+tn+".WriteToBytes/exact-length-buffer/neighbouring-bytes-changed", "%s(%d).WriteToBytes(buf[%d:%d]) changed byte %d of the underlying array: %x (was filled with 55)", tn, v, off, off+len(ref), i, st.win[:])
+				break
+			}
 		}
 	}
-	// decode the reference bytes (== the emitted bytes unless a failure was already recorded)
+
+	// --- WriteTo, on every writer kind
+	for wk := 0; wk < nWr; wk++ {
+		w := st.wr.open(wk)
+		var wn int64
+		var werr error
+		if long {
+			wn, werr = xl.WriteTo(w)
+		} else {
+			wn, werr = xi.WriteTo(w)
+		}
+		st.trans++
+		pre := "enc/" + tn + ".WriteTo/"
+		preLen := "enc/" + tn + ".Len/"
+		if wk != wrPlain {
+			pre += "writer=" + wrNames[wk] + "/"
+			preLen += "writer=" + wrNames[wk] + "/"
+		}
+		if werr != nil {
+			st.failf(pre+"error-on-accepting-writer", "%s(%d).WriteTo(%s writer) returned %v", tn, v, wrNames[wk], werr)
+			continue
+		}
+		got := st.wr.received(wk)
+		if wn != int64(len(got)) {
+			st.failf(pre+"count-differs-from-bytes-written", "%s(%d).WriteTo(%s writer) returned n=%d but the writer received %d bytes", tn, v, wrNames[wk], wn, len(got))
+		}
+		if ln != len(got) {
+			st.failf(preLen+"differs-from-WriteTo-count", "%s(%d).Len() = %d but WriteTo(%s writer) emitted %d bytes (reported n=%d)", tn, v, ln, wrNames[wk], len(got), wn)
+		}
+		if !bytes.Equal(got, ref) {
+			st.failf(pre+"bytes-differ-from-minimal-LEB128", "%s(%d).WriteTo(%s writer) wrote %x; reference minimal LEB128 is %x", tn, v, wrNames[wk], got, ref)
+		}
+	}
+
+	// --- decode the reference bytes (== the emitted bytes unless a failure was already recorded),
+	// followed by a tail, from every source kind. The eof-with-last-byte source gets no tail: it
+	// ends exactly at the end of the encoding and reports io.EOF together with the last byte
+	// (legal io.Reader behaviour; decompressors do it) — the value is complete.
 	stream := append(append(st.stream[:0], ref...), encTail...)
 	want := uint64(v)
 	if !long {
 		want = uint64(uint32(int32(v)))
 	}
-	// a plain reader that ends exactly at the end of the encoding and reports io.EOF together with
-	// the last byte (legal io.Reader behaviour; decompressors do it): the value is complete
-	{
-		er := eofReader{data: ref}
-		var got uint64
-		var n int64
-		var err error
-		if long {
-			out := pk.VarLong(0x5aa55aa55aa55aa5)
-			n, err = out.ReadFrom(&er)
-			got = uint64(out)
-		} else {
-			out := pk.VarInt(0x5aa55aa5)
-			n, err = out.ReadFrom(&er)
-			got = uint64(uint32(out))
+	for src := 0; src < nSrc; src++ {
+		in, tail := stream, encTail
+		if src == srcEOFLast {
+			in, tail = stream[:len(ref)], nil
 		}
-		st.trans++
-		pre := "roundtrip/" + tn + ".ReadFrom/plain-eof-with-last-byte/"
-		if err != nil {
-			st.failf(pre+"error-on-encoder-output", "decoding %x (the encoding of %d) from a reader that returns the last byte together with io.EOF returned error %v", ref, v, err)
-		} else if got != want || n != int64(len(ref)) {
-			st.failf(pre+"wrong-value-or-count", "decoding %x from a reader that returns the last byte together with io.EOF gave %#x, n=%d; want %#x, n=%d", ref, got, n, want, len(ref))
-		}
-	}
-	for src := 0; src < 2; src++ {
-		got, n, err, consumed := st.decodeFrom(long, stream, src)
+		got, n, err, consumed := st.decodeFrom(long, in, src)
 		pre := rtPrefix[b2i(long)][src]
 		if err != nil {
-			st.failf(pre+"error-on-encoder-output", "decoding %x (the encoding of %d, followed by tail %x) returned error %v", ref, v, encTail, err)
+			st.failf(pre+"error-on-encoder-output", "decoding %x (the encoding of %d, followed by tail %x) from source %s returned error %v", ref, v, tail, srcNames[src], err)
 			continue
 		}
 		if got != want {
-			st.failf(pre+"wrong-value", "decoding %x (the encoding of %d) returned bit pattern %#x, want %#x", ref, v, got, want)
+			st.failf(pre+"wrong-value", "decoding %x (the encoding of %d) from source %s returned bit pattern %#x, want %#x", ref, v, srcNames[src], got, want)
 		}
 		if n != int64(len(ref)) {
-			st.failf(pre+"n-differs-from-encoding-length", "decoding %x (the encoding of %d) reported n=%d, the encoding has %d bytes", ref, v, n, len(ref))
+			st.failf(pre+"n-differs-from-encoding-length", "decoding %x (the encoding of %d) from source %s reported n=%d, the encoding has %d bytes", ref, v, srcNames[src], n, len(ref))
 		}
 		if consumed != len(ref) {
-			st.failf(pre+"touched-the-rest-of-the-stream", "decoding %x followed by tail %x consumed %d bytes from the source, the encoding has %d", ref, encTail, consumed, len(ref))
+			st.failf(pre+"touched-the-rest-of-the-stream", "decoding %x followed by tail %x consumed %d bytes from source %s, the encoding has %d", ref, tail, consumed, srcNames[src], len(ref))
 		}
 	}
 }
@@ -377,7 +370,7 @@ func leadingZeros(u uint64) int {
 // runDec judges one stream from both sources for both types, with panic recovery.
 func (st *state) runDec(stream []byte) {
 	for _, long := range []bool{false, true} {
-		for src := 0; src < 2; src++ {
+		for src := 0; src < nSrc; src++ {
 			kind, frame, p := engine.Guard(func() { st.checkDec(long, stream, src) })
 			c := Case{Part: "dec", Type: typeName(long), Hex: hex.EncodeToString(stream), Src: srcNames[src]}
 			if p {
@@ -826,9 +819,9 @@ func replay() {
 			if err != nil {
 				engine.HarnessError("bad hex: %v", err)
 			}
-			src := srcByteReader
-			if c.Src == srcNames[srcPlain] {
-				src = srcPlain
+			src := srcIndex(c.Src)
+			if src < 0 {
+				engine.HarnessError("bad source kind %q", c.Src)
 			}
 			if i == 0 {
 				d := refwire.DecodeVar(stream, map[bool]int{false: 5, true: 10}[long], map[bool]uint{false: 32, true: 64}[long])
@@ -850,7 +843,7 @@ func replay() {
 
 func main() {
 	rep = engine.NewReport("C05")
-	rep.Rule = "part enc: one case per integer value (families are de-duplicated against each other, so the count is of distinct values); part dec: one case per distinct byte stream (string x tail variant; run-family members already present in the other families are not counted); every case reaches the codec, so every distinct case is non-trivial. evaluations = enc values + dec (stream x type x source) executions"
+	rep.Rule = "part enc: one case per integer value (families are de-duplicated against each other, so the count is of distinct values); part dec: one case per distinct byte stream (string x tail variant; run-family members already present in the other families are not counted); every case reaches the codec, so every distinct case is non-trivial. each enc value is written to every writer kind and both WriteToBytes buffer shapes and decoded from every source kind; each dec stream is decoded for both types from every source kind. evaluations = enc values + dec (stream x type x source kind) executions"
 	if rep.ReplayPath != "" {
 		replay()
 		return
@@ -858,6 +851,11 @@ func main() {
 	selftest()
 	partEnc()
 	partDec()
+	rep.Extra("source_kinds", srcNames[:])
+	rep.Extra("writer_kinds", wrNames[:])
+	rep.Extra("WriteToBytes_buffers", []string{"16 bytes pre-filled (bytes beyond the returned count must not change)", "window of exactly the encoding's length at offset 3 of a 24-byte array (no panic, neighbours unchanged)"})
+	rep.Count("source_kinds_per_decode_case", nSrc)
+	rep.Count("writer_kinds_per_value", nWr)
 	rep.AddTraces(atomic.LoadInt64(&rep.Evaluations))
 	rep.Sample(Case{Part: "enc", Type: "VarInt", Value: "-1"})
 	rep.Sample(Case{Part: "enc", Type: "VarLong", Value: "34359738368"})
